@@ -10,7 +10,7 @@ from __future__ import annotations
 import os
 import sys
 
-__all__ = ["Skip", "skip", "assume", "forked", "verdict", "WITNESS", "NOSTUBS", "symbolic_run"]
+__all__ = ["Skip", "skip", "assume", "forked", "fixlen", "verdict", "WITNESS", "NOSTUBS", "symbolic_run"]
 
 WITNESS = os.environ.get("VF_WITNESS") == "1"
 NOSTUBS = os.environ.get("VF_NOSTUBS") == "1"
@@ -39,6 +39,17 @@ def forked(x, lo: int, hi: int) -> int:
         if x == k:
             return k
     raise Skip()
+
+
+def fixlen(s: str, maxlen: int) -> str:
+    """An equal string whose *length* is concrete (solver-forked).  Needed before a symbolic
+    string is spliced into a long concrete template: with a symbolic length every later
+    position of the concatenation would be symbolic too."""
+    n = forked(len(s), 0, maxlen + 1)
+    out = ""
+    for k in range(n):
+        out = out + s[k]
+    return out
 
 
 def forked_bool(b) -> bool:
